@@ -11,7 +11,9 @@ SPEC = {
     "technique": "exhaustive enumeration of packets (grammar x mutation histories, accepted parser inputs) under a cross-layer write monitor + ASan",
     "rule": ("(i) built packets: every grammar packet (hand-written stacks + every generated (class, setter, sample) variant), every ordered pair of "
              "generated setters applied to one object of each class (thorough: with every pair of samples), and add/remove/add-again histories of "
-             "length <= 3 on every option-carrying class; (ii) parsed packets: every input ACCEPTED by the C01 enumeration restricted to SEEDS, d1, t, x. "
+             "length <= 3 on every option-carrying class (incl. options whose advertised length differs from the stored data), and ONE add operation "
+             "repeated n = 1..300 (thorough 700) times on each of 10 option/tag/extension-carrying classes, serialized after every step up to the "
+             "protocol's own size limit (computed by the harness, not read from the object); (ii) parsed packets: every input ACCEPTED by the C01 enumeration restricted to SEEDS, d1, t, x. "
              "Each packet is serialized through a re-implementation of PDU::serialize's recursion on an exactly-sized heap block: after the child "
              "layers have written [header_size, n - trailer_size) that region is snapshotted, the layer's own write_serialization() runs, the region "
              "must be unchanged; the result must equal the public serialize() (binding the monitor to the real recursion), have exactly size() = "
